@@ -75,7 +75,13 @@ fn c08_components_formula() {
     kani::assume(rights < 16);
     let ep = any_opt_square();
     let s = mk_state(&p, turn, rights_from(rights), ep);
-    assert!(hasher.hash(&s) == spec_components(&hasher, turn, rights, ep));
+    // On the empty board no en-passant capture is available, and the property only asks that an AVAILABLE capture is
+    // separated: the target's file key may be folded in (as the code does) or left out, but nothing else may happen.
+    let h = hasher.hash(&s);
+    assert!(h == spec_components(&hasher, turn, rights, ep) || h == spec_components(&hasher, turn, rights, None));
+    // without a target the formula is exact
+    let s0 = mk_state(&p, turn, rights_from(rights), None);
+    assert!(hasher.hash(&s0) == spec_components(&hasher, turn, rights, None));
     kani::cover!(rights == 15 && ep.is_some(), "all components reachable");
 }
 
@@ -190,44 +196,103 @@ fn c08_separates_castling_rights() {
     kani::cover!(which == 3 && turn == Color::Black, "reachable");
 }
 
-/// en-passant: two concrete scenario placements (White to move with pawns e5 / black d5 and f5; Black to move mirrored),
-/// symbolic rights and keys: capture available vs. not, and the two possible target files, are separated.
-/// (Symbolic pawn files make the board bits symbolic, which exhausts CBMC's memory in `hash`; the general statement is
-/// the components formula c08_components_formula, which is proved for every target square.)
-fn ep_scenario(turn: Color) {
+/// en-passant, capture AVAILABLE: for every victim file v (one harness per file and colour, concrete placement: the
+/// victim pawn has just double-stepped on file v, a pawn of the side to move stands next to it on every neighbouring
+/// file that exists), symbolic rights and keys: the position with the en-passant target and the same position without
+/// it differ by exactly the key of file v; two neighbouring victim files get different keys' worth of difference.
+/// (Symbolic pawn files make the board bits symbolic, which is what exhausts CBMC's memory in `hash`.)
+/// Where NO capture is available the property leaves the hash free to ignore the target; see c08_components_formula.
+fn ep_scenario(turn: Color, v: i8) {
     let hasher = sym_hasher();
     let r5: i8 = if turn == Color::White { 4 } else { 3 };
     let mut p = [0u64; 16];
     p[6] = bit(4);
     p[14] = bit(60);
-    p[pidx(turn, Piece::Pawn)] |= bit(mk(4, r5));
-    p[pidx(!turn, Piece::Pawn)] |= bit(mk(3, r5)) | bit(mk(5, r5));
-    let t1 = sq(mk(3, r5 + fwd(turn)));
-    let t2 = sq(mk(5, r5 + fwd(turn)));
+    // victim (of the side that just moved) on file v, capturers of the side to move on v-1 / v+1
+    p[pidx(!turn, Piece::Pawn)] |= bit(mk(v, r5));
+    if v > 0 {
+        p[pidx(turn, Piece::Pawn)] |= bit(mk(v - 1, r5));
+    }
+    if v < 7 {
+        p[pidx(turn, Piece::Pawn)] |= bit(mk(v + 1, r5));
+    }
+    let t = sq(mk(v, r5 + fwd(turn)));
     let rights: u8 = kani::any();
     kani::assume(rights < 16);
-    let a = mk_state(&p, turn, rights_from(rights), Some(t1));
-    let b = mk_state(&p, turn, rights_from(rights), Some(t2));
+    let a = mk_state(&p, turn, rights_from(rights), Some(t));
     let none = mk_state(&p, turn, rights_from(rights), None);
-    let k1 = hasher.en_passant_hash[t1.file()];
+    let k = hasher.en_passant_hash[t.file()];
+    assert!(hasher.hash(&a) ^ hasher.hash(&none) == k, "an available en-passant capture on this file is hashed in by exactly the file's key");
+    assert!(k == 0 || hasher.hash(&a) != hasher.hash(&none));
+    // a second victim two files away (so that both captures are available at once): the two targets are separated
+    let v2 = if v < 6 { v + 2 } else { v - 2 };
+    let mut p2 = p;
+    p2[pidx(!turn, Piece::Pawn)] |= bit(mk(v2, r5));
+    let t2 = sq(mk(v2, r5 + fwd(turn)));
+    let b1 = mk_state(&p2, turn, rights_from(rights), Some(t));
+    let b2 = mk_state(&p2, turn, rights_from(rights), Some(t2));
     let k2 = hasher.en_passant_hash[t2.file()];
-    assert!(hasher.hash(&a) ^ hasher.hash(&none) == k1);
-    assert!(hasher.hash(&b) ^ hasher.hash(&none) == k2);
-    assert!(k1 == 0 || hasher.hash(&a) != hasher.hash(&none));
-    assert!(k1 == k2 || hasher.hash(&a) != hasher.hash(&b));
+    assert!(hasher.hash(&b1) ^ hasher.hash(&b2) == k ^ k2);
+    assert!(k == k2 || hasher.hash(&b1) != hasher.hash(&b2));
     kani::cover!(rights == 9, "reachable");
 }
 
-#[kani::proof]
-#[kani::unwind(8)]
-fn c08_separates_en_passant_white() {
-    ep_scenario(Color::White)
+macro_rules! ep_harness {
+    ($name:ident, $turn:expr, $v:expr) => {
+        #[kani::proof]
+        #[kani::unwind(8)]
+        fn $name() {
+            ep_scenario($turn, $v)
+        }
+    };
 }
+ep_harness!(c08_separates_en_passant_white_a, Color::White, 0);
+ep_harness!(c08_separates_en_passant_white_b, Color::White, 1);
+ep_harness!(c08_separates_en_passant_white_c, Color::White, 2);
+ep_harness!(c08_separates_en_passant_white_d, Color::White, 3);
+ep_harness!(c08_separates_en_passant_white_e, Color::White, 4);
+ep_harness!(c08_separates_en_passant_white_f, Color::White, 5);
+ep_harness!(c08_separates_en_passant_white_g, Color::White, 6);
+ep_harness!(c08_separates_en_passant_white_h, Color::White, 7);
+ep_harness!(c08_separates_en_passant_black_a, Color::Black, 0);
+ep_harness!(c08_separates_en_passant_black_b, Color::Black, 1);
+ep_harness!(c08_separates_en_passant_black_c, Color::Black, 2);
+ep_harness!(c08_separates_en_passant_black_d, Color::Black, 3);
+ep_harness!(c08_separates_en_passant_black_e, Color::Black, 4);
+ep_harness!(c08_separates_en_passant_black_f, Color::Black, 5);
+ep_harness!(c08_separates_en_passant_black_g, Color::Black, 6);
+ep_harness!(c08_separates_en_passant_black_h, Color::Black, 7);
 
+/// (2b) Placement formula for an ARBITRARY position with at most two pieces of each of the twelve piece indexes (fully
+/// symbolic squares, fully symbolic key tables, per-loop unwinding bound 3 on the `iter_ones` loop of `hash`):
+/// hash == components ^ XOR over the occupied squares t of K[t][piece index standing on t].
+/// The spec enumerates the 64 squares concretely, so only the real function indexes the table symbolically.
 #[kani::proof]
-#[kani::unwind(8)]
-fn c08_separates_en_passant_black() {
-    ep_scenario(Color::Black)
+#[kani::unwind(66)]
+fn c08_placement_formula_symbolic_2() {
+    let hasher = sym_hasher();
+    let p: [u64; 16] = kani::any();
+    kani::assume(boards_wf_unrolled(&p));
+    let mut i = 1;
+    while i < 15 {
+        kani::assume(p[i].count_ones() <= 2);
+        i += 1;
+    }
+    let turn = any_color();
+    let rights: u8 = kani::any();
+    kani::assume(rights < 16);
+    let s = mk_state(&p, turn, rights_from(rights), None);
+    let mut want = spec_components(&hasher, turn, rights, None);
+    let mut t: u8 = 0;
+    while t < 64 {
+        let c = code_at(&p, t);
+        if c != 0 {
+            want ^= hasher.piece_hash[sq(t)][PieceIndex(c)];
+        }
+        t += 1;
+    }
+    assert!(hasher.hash(&s) == want);
+    kani::cover!(p[1].count_ones() == 2 && p[14].count_ones() == 1 && p[12].count_ones() == 2, "several pieces reachable");
 }
 
 #[kani::proof]
